@@ -513,7 +513,7 @@ type ContractFile struct {
 }
 
 var clauseKeywords = map[string]bool{"requires": true, "ensures": true, "modifies": true, "loop": true, "prop": true, "nopanic": true,
-	"trusted": true, "defines": true, "trusted-ensures": true, "covers": true, "func": true, "extern": true, "pure": true, "rec": true, "uninterp": true, "axiom": true, "lemma": true,
+	"trusted": true, "defines": true, "trusted-ensures": true, "proves": true, "covers": true, "func": true, "extern": true, "pure": true, "rec": true, "uninterp": true, "axiom": true, "lemma": true,
 	"ghost": true, "effectfree": true, "type-invariant": true, "relayed": true, "exempt": true, "import": true, "inline": true, "noframe": true, "splitreturns": true, "label": true, "assert": true, "assert-call": true, "assert-update": true, "assert-store": true, "assert-load": true, "chan-nonnil": true}
 
 // ParseContractFile reads //@ lines from a file.
@@ -631,7 +631,7 @@ func ParseContractText(text, path, pkg string) (*ContractFile, error) {
 				callee = strings.TrimSpace(callee[:h])
 			}
 			cur.Labels = append(cur.Labels, &CallAssert{Callee: callee, Ordinal: ord, C: &Clause{Kind: "label", Text: fs[1], Line: l.n, File: path}})
-		case "requires", "ensures", "covers", "assert", "defines", "trusted-ensures":
+		case "requires", "ensures", "proves", "covers", "assert", "defines", "trusted-ensures":
 			if cur == nil {
 				return nil, fail(l.n, "%s outside func", kw)
 			}
@@ -644,6 +644,11 @@ func ParseContractText(text, path, pkg string) (*ContractFile, error) {
 				c.Props = scoped
 				cur.Requires = append(cur.Requires, c)
 			case "ensures":
+				cur.Ensures = append(cur.Ensures, c)
+			case "proves":
+				// a postcondition proved for the body but NOT assumed at call sites (for facts about state that the
+				// function's caller-facing frame deliberately does not mention)
+				c.Kind = "proves"
 				cur.Ensures = append(cur.Ensures, c)
 			case "defines":
 				c.Kind = "defines"
